@@ -152,3 +152,135 @@ Proof.
   assert (36 * d2 / (d2 + 38) < 36) by (apply N.div_lt_upper_bound; lia).
   rewrite u32_small by lia. split; [reflexivity|lia].
 Qed.
+
+(* ------------------------------------------------------------------ *)
+(* The loops of the label function on a well-formed UTF-8 string       *)
+(* ------------------------------------------------------------------ *)
+Lemma wf_cons bs v : utf8_wf bs v -> exists b bs', bs = b :: bs'.
+Proof. intros H; destruct H; eexists _, _; reflexivity. Qed.
+
+Lemma wf_small bs v : utf8_wf bs v -> v < 1114112.
+Proof. intros H. pose proof (utf8_wf_scalar bs v H) as [H1 _]. lia. Qed.
+
+Lemma wf_not_max bs v : utf8_wf bs v -> (v =? UINT_MAX) = false.
+Proof. intros H. apply wf_small in H. apply N.eqb_neq. unfold UINT_MAX. lia. Qed.
+
+Definition small (c : N) : Prop := c < 1114112.
+
+Lemma utf8_string_small s cps : utf8_string s cps -> Forall small cps.
+Proof. induction 1; constructor; [eapply wf_small; eassumption|assumption]. Qed.
+
+Lemma utf8_string_length s cps : utf8_string s cps -> (length cps <= length s)%nat.
+Proof.
+  induction 1; [cbn; lia|]. rewrite app_length. pose proof (utf8_wf_length bs v H). cbn [length]. lia.
+Qed.
+
+Definition cnt (f : N -> bool) (l : list N) : N := N.of_nat (length (filter f l)).
+Definition nonbasic (c : N) : bool := negb (basic c).
+
+Lemma cnt_cons f c l : cnt f (c :: l) = (if f c then 1 else 0) + cnt f l.
+Proof. unfold cnt. cbn [filter]. destruct (f c); cbn [length]; lia. Qed.
+
+Lemma cnt_le f l : cnt f l <= N.of_nat (length l).
+Proof.
+  unfold cnt. induction l as [|a l IH]; [cbn; lia|]. cbn [filter length].
+  destruct (f a); cbn [length]; lia.
+Qed.
+
+(* lines 177-187 *)
+Lemma count_loop_spec s cps : utf8_string s cps -> forall fuel h todo,
+  (length s <= fuel)%nat ->
+  h + N.of_nat (length cps) < 4294967296 -> todo + N.of_nat (length cps) < 4294967296 ->
+  count_loop fuel s h todo = Some (h + cnt basic cps, todo + cnt nonbasic cps).
+Proof.
+  induction 1 as [|bs v rest cps W S IH]; intros fuel h todo Hf Hh Ht.
+  - destruct fuel; cbn; f_equal; f_equal; unfold cnt; cbn; lia.
+  - destruct (wf_cons bs v W) as (b0 & bs' & ->).
+    rewrite app_length in Hf. cbn [length] in *.
+    destruct fuel as [|f]; [lia|]. cbn [app count_loop].
+    change (b0 :: bs' ++ rest) with ((b0 :: bs') ++ rest).
+    rewrite (utf8_decode_sound _ v rest W), (wf_not_max _ v W).
+    rewrite !cnt_cons.
+    assert (Eb : basic v = (v <? 128)) by reflexivity.
+    assert (En : nonbasic v = negb (v <? 128)) by reflexivity. rewrite Eb, En.
+    destruct (N.ltb_spec v 128); cbn [negb].
+    + rewrite u32_small by lia. rewrite IH by lia. f_equal. f_equal; lia.
+    + rewrite u32_small by lia. rewrite IH by lia. f_equal. f_equal; lia.
+Qed.
+
+Lemma cnt_zero_filter f l : cnt f l = 0 -> filter f l = [].
+Proof. unfold cnt. intros H. destruct (filter f l); [reflexivity|cbn in H; lia]. Qed.
+
+(* lines 200-212 *)
+Lemma ascii_loop_spec s cps : utf8_string s cps -> forall fuel x h w,
+  (length s <= fuel)%nat -> x + cnt basic cps = h -> h < 4294967296 ->
+  ascii_loop (list N) cons fuel s x h w = rev (filter basic cps) ++ w.
+Proof.
+  induction 1 as [|bs v rest cps W S IH]; intros fuel x h w Hf Hx Hh.
+  - destruct fuel; reflexivity.
+  - destruct (wf_cons bs v W) as (b0 & bs' & ->).
+    rewrite app_length in Hf. cbn [length] in *.
+    destruct fuel as [|f]; [lia|]. cbn [app ascii_loop].
+    change (b0 :: bs' ++ rest) with ((b0 :: bs') ++ rest).
+    rewrite (utf8_decode_sound _ v rest W).
+    rewrite cnt_cons in Hx. cbn [filter]. unfold basic at 1 in Hx. unfold basic at 1.
+    destruct (N.ltb_spec 127 v); destruct (N.ltb_spec v 128); try lia.
+    + apply IH; lia.
+    + rewrite u32_small by lia. cbn [rev]. rewrite <- app_assoc. cbn [app].
+      destruct (N.eqb_spec (x + 1) h).
+      * rewrite (cnt_zero_filter basic cps) by lia. reflexivity.
+      * apply IH; lia.
+Qed.
+
+(* lines 231-238 *)
+Definition min_fold (cps : list N) (n m : N) : N :=
+  fold_left (fun m c => if (n <=? c) && (c <? m) then c else m) cps m.
+
+Lemma min_loop_spec s cps : utf8_string s cps -> forall fuel n m,
+  (length s <= fuel)%nat -> min_loop fuel s n m = min_fold cps n m.
+Proof.
+  induction 1 as [|bs v rest cps W S IH]; intros fuel n m Hf.
+  - destruct fuel; reflexivity.
+  - destruct (wf_cons bs v W) as (b0 & bs' & ->).
+    rewrite app_length in Hf. cbn [length] in *.
+    destruct fuel as [|f]; [lia|]. cbn [app min_loop].
+    change (b0 :: bs' ++ rest) with ((b0 :: bs') ++ rest).
+    rewrite (utf8_decode_sound _ v rest W). rewrite IH by lia. reflexivity.
+Qed.
+
+Lemma min_fold_ge cps n : forall M,
+  min_fold cps n M = match min_ge cps n with
+                     | None => M
+                     | Some m => if m <? M then m else M
+                     end.
+Proof.
+  induction cps as [|c r IH]; intros M; [reflexivity|].
+  unfold min_fold in *. cbn [fold_left min_ge]. rewrite IH.
+  destruct (min_ge r n) as [m|].
+  - destruct (N.leb_spec n c); destruct (N.ltb_spec c M); destruct (N.ltb_spec c m); cbn [andb];
+      repeat match goal with |- context [?a <? ?b] => destruct (N.ltb_spec a b) end; try lia; reflexivity.
+  - destruct (N.leb_spec n c); destruct (N.ltb_spec c M); cbn [andb];
+      repeat match goal with |- context [?a <? ?b] => destruct (N.ltb_spec a b) end; try lia; reflexivity.
+Qed.
+
+Lemma min_ge_none l n : min_ge l n = None -> forall c, In c l -> c < n.
+Proof.
+  induction l as [|a l IH]; intros E c []; subst; cbn [min_ge] in E;
+    destruct (min_ge l n) as [m|] eqn:E2; try (destruct ((n <=? _) && _); discriminate).
+  - destruct (N.leb_spec n c); [discriminate|lia].
+  - apply IH; [reflexivity|assumption].
+Qed.
+
+Lemma min_ge_props cps n m : min_ge cps n = Some m ->
+  In m cps /\ n <= m /\ (forall c, In c cps -> n <= c -> m <= c).
+Proof.
+  revert m. induction cps as [|c r IH]; intros m H; [discriminate|].
+  cbn [min_ge] in H. destruct (min_ge r n) as [m'|] eqn:E.
+  - destruct (IH m' eq_refl) as (I1 & I2 & I3).
+    destruct (N.leb_spec n c); destruct (N.ltb_spec c m'); cbn [andb] in H; inversion H; subst;
+      (split; [cbn; auto|]); (split; [lia|]); intros c0 [<-|Hin] Hc; try lia;
+      try (specialize (I3 c0 Hin Hc); lia).
+  - destruct (N.leb_spec n c); inversion H; subst.
+    split; [cbn; auto|]. split; [lia|]. intros c0 [<-|Hin] Hc; [lia|].
+    pose proof (min_ge_none r n E c0 Hin). lia.
+Qed.
